@@ -150,8 +150,9 @@ func runLocated(lf locFiles) (errText string, kind string) {
 func c11Located(r *lp.Run) {
 	items := "item:\n  get:\n    operationId: getItems\n    responses:\n      \"200\":\n        description: ok\n# end\n"
 	rootFor := func(key string) string {
-		return "openapi: 3.0.3\ninfo:\n  title: t\n  version: \"1\"\n# a few\n# lines\n# of\n# comment\npaths:\n  " + key + ":\n    $ref: \"items.yml#/item\"\n  /plain:\n    get:\n      operationId: plain\n      responses:\n        \"200\":\n          description: ok\n"
+		return "openapi: 3.0.3\ninfo:\n  title: t\n  version: \"1\"\n# a few\n# lines\n# of\n# comment\npaths:\n  /plain:\n    get:\n      operationId: plain\n      responses:\n        \"200\":\n          description: ok\n  " + key + ":\n    $ref: \"items.yml#/item\"\n"
 	}
+	// (the faulty key is not the first key of `paths`: a mapping's own position is that of its first key)
 	type sc struct {
 		name     string
 		lf       locFiles
@@ -162,7 +163,7 @@ func c11Located(r *lp.Run) {
 	// (the last four: the same faults in keys that also carry a valid but non-canonical escape — the key is
 	// looked up in the document as it is written there, not in its normal form)
 	for _, key := range []string{`"/pets?limit=10"`, `"//host/x"`, `"/a%zz"`, `"/a/{x"`, `"pets"`, `"/a%2fb/{x"`, `"/p%65ts?limit=10"`, `"/a%7e/{x/y}"`, `"/%41/{x"`} {
-		scs = append(scs, sc{"path key " + key + " whose path item is a $ref into another file", locFiles{"root.yml", map[string]string{"root.yml": rootFor(key), "items.yml": items}}, "root.yml", 10})
+		scs = append(scs, sc{"path key " + key + " whose path item is a $ref into another file", locFiles{"root.yml", map[string]string{"root.yml": rootFor(key), "items.yml": items}}, "root.yml", 16})
 	}
 	// faults inside the external file
 	badItems := strings.Replace(items, "description: ok", "description: ok\n        content: 7", 1)
@@ -170,11 +171,11 @@ func c11Located(r *lp.Run) {
 	badItems2 := strings.Replace(items, "operationId: getItems", "operationId: getItems\n    parameters:\n      - name: p\n        in: nowhere\n        schema: {type: string}", 1)
 	scs = append(scs, sc{"invalid parameter location inside the external file", locFiles{"root.yml", map[string]string{"root.yml": rootFor("/items"), "items.yml": badItems2}}, "", 0})
 	// a dangling reference from the root into the external file
-	scs = append(scs, sc{"dangling pointer into the external file", locFiles{"root.yml", map[string]string{"root.yml": strings.Replace(rootFor("/items"), "items.yml#/item", "items.yml#/nope", 1), "items.yml": items}}, "root.yml", 11})
+	scs = append(scs, sc{"dangling pointer into the external file", locFiles{"root.yml", map[string]string{"root.yml": strings.Replace(rootFor("/items"), "items.yml#/item", "items.yml#/nope", 1), "items.yml": items}}, "root.yml", 17})
 	// single file, fault deep in the document
 	single := rootFor("/items")
 	single = strings.Replace(single, "    $ref: \"items.yml#/item\"\n", "    get:\n      operationId: x\n      parameters:\n        - name: q\n          in: query\n          schema:\n            type: strng\n      responses:\n        \"200\":\n          description: ok\n", 1)
-	scs = append(scs, sc{"unknown schema type in a single file", locFiles{"root.yml", map[string]string{"root.yml": single}}, "root.yml", 17})
+	scs = append(scs, sc{"unknown schema type in a single file", locFiles{"root.yml", map[string]string{"root.yml": single}}, "root.yml", 23})
 	for _, s := range scs {
 		errText, kind := runLocated(s.lf)
 		r.Count("c11 located "+s.name, "located:"+kind, true)
